@@ -15,7 +15,7 @@ from .shared import *  # noqa
 from vc.sorts import *  # noqa
 from vc.spec import *  # noqa
 from vc.reflect import reflect_bool_method
-from vc.speclemmas import STREAM, PUBL
+from vc.speclemmas import STREAM, PUBL, MAPL
 from vc.engine import SV, SymRaise
 from vc.pyfe import Interp, Obj, LoopContract
 from contracts.pattern_family import c12_contracts
@@ -90,12 +90,14 @@ def build(repo, tier):
     lib = py_lib(JE)
     lib.update(STREAM)
     lib.update(PUBL)
+    lib.update({k: v for k, v in MAPL.items() if v is not None})
     pid = 'C02'
     us = sim_units(repo, cs, pid)
     for r in RULES:
         us.append(Unit(f'{pid}/py/ProofExp.{r} keeps thunks good', dsl_unit(repo, cs, r), info={'split_depth': 1}))
     bounded = {}
     for r in ('dynamic_inst', 'instantiate'):
+        us.append(Unit(f'{pid}/py/ProofExp.{r} keeps thunks good', dsl_unit(repo, cs, r), info={'split_depth': 1}))
         for k in (1, 2, 3):
             n = f'{pid}/py/ProofExp.{r} keeps thunks good [|delta| = {k}]'
             us.append(Unit(n, dsl_unit(repo, cs, r, k), info={'split_depth': 1}))
